@@ -168,6 +168,9 @@ def undictify_element(element_dict: dict[str, Any], circuit_dict: dict[str, Any]
     kwargs.update({'reverse': element_dict.get('reverse', False)})
     if element_dict['name'] in circuit_dict.keys():
         kwargs.update(circuit_dict[element_dict['name']])
+        for phase_option in ('deg', 'sin'): # the circuit values hold the phase in radians with cosine reference already
+            if phase_option in kwargs and 'phi' in circuit_dict[element_dict['name']]:
+                kwargs[phase_option] = False
     try:
         element = simple_circuit_element_types[element_dict['type']](**kwargs)
     except KeyError:
